@@ -186,6 +186,24 @@ def run(report: Report, tier, seed):
     for b in tcr[:1]:
         p0 = next(p for p in b["problems"] if p.startswith("exception "))
         report.violation(Violation(key=f"crash:{p0.split()[1].rstrip(':')}:template-constants", what=f"template constants {b['job']}: {p0}"[:300], replay={"kind": "template", "job": b["job"]}, confirmed_native=True))
+    # misused builders / ill-formed programs
+    from . import misuse
+    mj = misuse.jobs()
+    with ProcessPoolExecutor(max_workers=16) as ex:
+        mr = list(ex.map(misuse.case, mj, chunksize=8))
+    mcr = [r for r in mr if r["crash"]]
+    report.bounded.append(Bounded(function="pyteal.compileTeal on programs built by misusing the control-flow builders / with ill-formed parts", contract="TEAL or a PyTeal error, no other exception (a constructor refusing its arguments produced no program)",
+                                  bound=f"{len(misuse.PROBES)} misuse probes (incomplete / repeated / mis-ordered If, While, For builders, exits and loop exits out of place, ill-typed parts, slot ids, inner-transaction fields, pragma) x versions 2, 6, 10 and LogicSig mode",
+                                  cases=len(mr), distinct_nontrivial=len(misuse.PROBES), failures=len(mcr)))
+    mseen = set()
+    for b in mcr:
+        key = f"crash:{b['crash']['type']}:misuse:{b['job'][0]}"
+        if key in mseen:
+            continue
+        mseen.add(key)
+        if len(mseen) > 3:
+            break
+        report.violation(Violation(key=key, what=f"misuse probe {b['job']}: {b['crash']['type']} in {b['crash']['where']}: {b['crash']['message']}"[:300], replay={"kind": "misuse", "job": b["job"]}, confirmed_native=True))
     # long programs (resource bound)
     probes = [(k, n, 6) for k in ("straight", "nested-if", "nested-add") for n in ([100, 200, 400, 800] if tier == "quick" else [100, 200, 400, 800, 1600, 3200])]
     with ProcessPoolExecutor(max_workers=8) as ex:
@@ -251,6 +269,11 @@ def replay(data):
         c, f = ir_native.check_flatten(3)
         print(f[:1])
         return 1 if f else 0
+    if r["kind"] == "misuse":
+        from . import misuse
+        out = misuse.case(tuple(r["job"]))
+        print(out)
+        return 1 if out["crash"] else 0
     if r["kind"] == "template":
         from . import c12 as _c12
         out = _c12.template_case(tuple(r["job"]))
